@@ -13,7 +13,7 @@ CLAIMED = {
     text='Kernel-checked theorems: validate_iff, get_spec, set_spec, set_extent, get_after_set, reset_spec, '
          'blocks_refine_map (any op sequence on a block = the same sequence on a partial map, by induction), context_offset, '
          'server-context routing; the model is compared with the real block/context classes on boundary sweeps and random '
-         'op sequences each run.',
+         'op sequences each run (server contexts built in each way a caller can build them; several live in one process and must not share their registry).',
     design='6/C18', technique='Lean 4 refinement proof (block = partial map) + differential correspondence',
     note='Modelled not verified: Python list slicing and dict order. Values restricted to non-negative ints/bools.'),
 }
@@ -54,7 +54,7 @@ CLAIMED['C14'] = dict(
     text='Kernel-checked: read_size_exact (prediction = 1 + encoded normal response for FC 1-4, 23, every context and quantity, via the C04 '
          'refinement), expected_adu_exact (the ADU length the client computes = the length of the frame the server builds, RTU/ASCII/binary), '
          'write_size_exact, diag_size_exact (every FC 8 sub-function class), exception_size; exhaustive run over all quantities '
-         'through the real server path and through a stub-transport client for RTU/ASCII/binary/TLS/socket framings.',
+         'through the real server path and through a stub-transport client for RTU/ASCII/binary/TLS/socket framings; client histories (silent unit, local echo, retries answered by exception replies) must ask the port for exactly the bytes that arrive.',
     design='6/C14', technique='Lean 4 arithmetic proof over the C04 refinement + exhaustive differential run',
     note='Per-framing overhead is checked on the real framers by the harness (transport stub returns exactly the bytes asked).')
 
@@ -122,7 +122,7 @@ CLAIMED['C16'] = dict(
          'over the history through one invariant): fires_at_most_once, fires_with_matching_tid (TCP), fifo_order + fifo_reply_oldest '
          '(serial), delivered_reply_is_the_arrived_one, unsolicited_dropped / duplicate_dropped / reply_keeps_others, '
          'lost_fails_all_pending (re-entrant requests issued inside connectionLost included), after_loss_every_execute_fails + '
-         'connection_private / connection_is_single_history / chunks_are_replies / chunking_independent + chunking_same_as_whole (ANY division of a stream of valid reply frames into reads gives exactly the state and events of the replies arriving whole; via C06, possible since dataReceived passes unit=0) / split_reply_delivered / unit_from_chunk_counterexample (mutant Guess.*: the fixed finding async-unit-from-chunk) / generated_data_received_unit / multi_connection_lifts (several protocol objects in one process, replies arriving in chunks through the framer models: an operation on one connection changes nothing of another, so every history theorem holds per connection), shared_buffer_counterexample (mutant with one framer for all objects), generated_per_instance_state (regenerated from the source each run), after_loss_history, after_close_every_execute_fails + lost_after_close_fails_all_pending + close_then_lost (a local close() anywhere in the history), no_exception, C16_fifo (whole property, serial variant), C16_dict_partial / distinct_ids_partial / '
+         'connection_private / connection_is_single_history / chunks_are_replies / chunking_independent + chunking_same_as_whole (ANY division of a stream of valid reply frames into reads gives exactly the state and events of the replies arriving whole; via C06, possible since dataReceived passes unit=0) / split_reply_delivered / unit_from_chunk_counterexample (mutant Guess.*: the fixed finding async-unit-from-chunk) / generated_data_received_unit / multi_connection_lifts (several protocol objects in one process, replies arriving in chunks through the framer models: an operation on one connection changes nothing of another, so every history theorem holds per connection), shared_buffer_counterexample (mutant with one framer for all objects), generated_per_instance_state + generated_manager_kinds + generated_data_received_unit (regenerated from the source each run: per-object framer and manager, which manager each way of building a protocol object gives, what dataReceived passes as unit), after_loss_history, after_close_every_execute_fails + lost_after_close_fails_all_pending + close_then_lost (a local close() anywhere in the history), no_exception, C16_fifo (whole property, serial variant), C16_dict_partial / distinct_ids_partial / '
          'no_deferred_lost_partial (TCP variant while no outstanding request sees 65536 further executes) and '
          'distinct_ids_counterexample / C16_dict_counterexample (the full statement is false at the 16-bit wrap: known finding '
          'tid-wrap-overwrite). The model is compared event by event with the real ModbusClientProtocol / ModbusSerClientProtocol / '
@@ -194,7 +194,7 @@ CLAIMED['C10'] = dict(
 CLAIMED['C12'] = dict(
     text='Kernel-checked: no_exception_escapes / serve_no_exception (connStep never reports an escaped exception, for every byte string, '
          'connection state and front-end), store_unchanged_without_delivery, rejected_request_changes_nothing, stopped_connection_inert, '
-         'offending_data_closes_or_resets, fresh_connection_probe (a connection opened after any history is served normally). Hostile histories (random bytes, well-framed ADUs around truncated / over-long / inconsistent / '
+         'offending_data_closes_or_resets, fresh_connection_probe (a connection opened after any history is served normally), serve_chunking_independent / serve_any_two_chunkings (C06 composed with the front-end model: a stream of valid request frames of ANY classes cut into reads ANYWHERE makes a stream front-end write exactly the bytes, and leaves exactly the datastore and control block, of the requests handled one after the other; nothing stays buffered; hypothesis for Twisted: listen-only mode is not switched on in the run, shown necessary by twisted_listen_only_depends_on_chunking). Hostile histories (random bytes, well-framed ADUs around truncated / over-long / inconsistent / '
          'empty PDUs, length fields 0/1/65535, bit flips, mixed with valid writes) are sent to all seven real front-ends each run with an idle '
          'second connection and a fresh third one probed afterwards.',
     design='6/C12', technique='Lean 4 proof over the server front-end model (totality, store frame rule) + differential correspondence on hostile input',
@@ -207,7 +207,7 @@ CLAIMED['C17'] = dict(
          'responses and leaves the same datastore, the worlds differing at most in the counters and the connections (CSim) at most in when they '
          'read the unit list; same_kind_agree needs front-ends that read the unit list at the same point; framing_independent_of_store, '
          'mode_invariant. Each run gives the same datastore and request bytes to every real front-end and compares them with each other '
-         'byte for byte, and interleaves 1..3 connections against the serial run of the frames in completion order.',
+         'byte for byte (also from control blocks whose message counters stand at the 16-bit boundary), and interleaves 1..3 connections against the serial run of the frames in completion order.',
     design='6/C17', technique='Lean 4 proof of front-end equivalence (equality within a kind, simulation across kinds) + cross-implementation differential run',
     note=SERVER_NOTE + 'A schedule is a total order of chunk deliveries; preemption inside one processIncomingPacket call (threaded server) is not modelled.')
 
